@@ -28,6 +28,11 @@ ASSUMPTIONS = ["read ids are unique", "actions trim, mask, none and retain (the 
 def gen_case(rng):
     kinds = ["a", "a", "g", "b", "a$", "g^", "aX", "gX", "linked", "linked", "rightmost"]
     ads = [G.gen_adapter(rng, i, kinds=kinds) for i in range(rng.randint(1, 3))]
+    if rng.random() < 0.12:
+        # adapter names are free text: the empty name, a name that reads like a placeholder of the file
+        a = rng.choice(ads)
+        a["name"] = rng.choice(["", "", "none", "-1"])
+        a["argv"] = [a["flag"], f"{a['name']}={a['spec']}"]
     fmt = "fastq" if rng.random() < 0.85 else "fasta"
     pre = []
     if rng.random() < 0.45:
